@@ -38,6 +38,11 @@ func runC03(p *Prog, r *Report) {
 	if want("C03.8") {
 		ruleLevelsImmutable(p, r, "C03.8")
 	}
+	if want("C03.11") {
+		// a view keeps its tables because the version it pinned keeps its reference: every
+		// session.version() reference is released exactly once (shared with C07.3)
+		ruleVersionRefs(p, r, "C03.11")
+	}
 	if want("C03.10") {
 		// entries above the view's sequence number are invisible to both scan directions
 		ruleDbIterGuards(p, r, "C03.10")
